@@ -44,6 +44,9 @@ pub struct Ctx {
     pub diff_mode: DiffMode,
     pub values: Vec<(String, u32)>,
     pub tol: f32,
+    /// seed and range for variables the model does not mention
+    pub default_seed: u64,
+    pub default_range: (f32, f32),
 }
 
 #[derive(Clone, Copy, PartialEq)]
@@ -75,8 +78,9 @@ pub fn eval(b: &B) -> bool {
 
 impl Ctx {
     pub fn new(mode: Mode, model: HashMap<String, f32>) -> Ctx {
-        Ctx { mode, model, records: Vec::new(), assumes_ok: true, fp_bound: None, diff_mode: DiffMode::Generic, values: Vec::new(), tol: 1e-3 }
+        Ctx { mode, model, records: Vec::new(), assumes_ok: true, fp_bound: None, diff_mode: DiffMode::Generic, values: Vec::new(), tol: 1e-3, default_seed: 7, default_range: (0.25, 0.75) }
     }
+    pub fn aligned_diff(&mut self, _on: bool) {}
     pub fn symbolic(&self) -> bool {
         false
     }
@@ -84,7 +88,7 @@ impl Ctx {
         match &self.mode {
             Mode::Model => match self.model.get(name) {
                 Some(v) => *v,
-                None => seeded(7, name, 0.25, 0.75),
+                None => seeded(self.default_seed, name, self.default_range.0, self.default_range.1),
             },
             Mode::Seeded(seed) => seeded(*seed, name, -2.0, 2.0),
         }
@@ -93,7 +97,7 @@ impl Ctx {
         match &self.mode {
             Mode::Model => match self.model.get(name) {
                 Some(v) => *v,
-                None => seeded(7, name, lo + 0.25 * (hi - lo), lo + 0.75 * (hi - lo)),
+                None => seeded(self.default_seed, name, lo + 0.05 * (hi - lo), lo + 0.95 * (hi - lo)),
             },
             Mode::Seeded(seed) => seeded(*seed, name, lo, hi),
         }
